@@ -182,6 +182,12 @@ def finish(pid, tier, seed, mod, records, wall, results):
     known = [k for k in load_known() if k.get("property") == pid]
     open_known = [k for k in known if k.get("status") == "open"]
     os.makedirs(REPLAYS, exist_ok=True)
+    for f_ in os.listdir(REPLAYS):          # the directory reflects the last run of each property only
+        if f_.startswith(pid + "-"):
+            try:
+                os.unlink(os.path.join(REPLAYS, f_))
+            except OSError:
+                pass
     viol, incon, errs, known_hits = [], [], [], []
     for r in records:
         if r["status"] == "violation":
